@@ -293,7 +293,7 @@ bool Instance::eval(const size_t argc, char* const* argv) {
         return false;
     }
     CScript::const_iterator it = script.begin();
-    const CScript::const_iterator codehash_before = env->pbegincodehash;
+    CScript::const_iterator codehash_before = env->pbegincodehash;
     bool ok = true;
     try {
         while (ok && it != script.end()) {
@@ -301,15 +301,16 @@ bool Instance::eval(const size_t argc, char* const* argv) {
                 fprintf(stderr, "Error: %s\n", ScriptErrorString(*env->serror).c_str());
                 ok = false;
             }
+            if (env->pbegincodehash != codehash_before) {
+                // an executed OP_CODESEPARATOR pointed into the temporary script above;
+                // it takes effect as if it stood at the current position of the real script
+                // (right away: a later OP_CHECKSIG of the same exec uses it)
+                env->pbegincodehash = codehash_before = env->pc;
+            }
         }
     } catch (const std::exception& ex) {
         fprintf(stderr, "Error: exception thrown: %s\n", ex.what());
         ok = false;
-    }
-    if (env->pbegincodehash != codehash_before) {
-        // an executed OP_CODESEPARATOR pointed into the temporary script above;
-        // it takes effect as if it stood at the current position of the real script
-        env->pbegincodehash = env->pc;
     }
     return ok;
 }
